@@ -644,9 +644,9 @@ pub fn run(ctx: &Ctx) -> i32 {
             tier: ctx.tier_name(),
             seed: ctx.seed,
             exhaustive: true,
-            rule: format!("every directed graph (self-loops allowed) on 1 and 2 libraries with every assignment of 9 node healths (healthy, missing, faulting body, wrong name in file, syntactically broken, not UTF-8 in the first line, not UTF-8 in a comment after the complete form, path is a directory, healthy behind another library definition in the same source); library files span several lines; every graph on 3 libraries (512) with {}; the library-to-library edges written as plain names and, for all configurations on <= 2 libraries and the all-healthy graphs on 3, as only / prefix / rename / except / mixed / empty-only import sets; for each configuration every history of import attempts on one interpreter (length 3 on <= 2 libraries{}; maximal histories cover their prefixes), with the libraries as files under the program directory (decoy libraries with other values in the working directory) and as registered sources; states = configurations, transitions = import attempts; plus every sequence of <= 3 program files from three directories evaluated on one interpreter (each imports a library that lives next to it, decoys everywhere else), and each of these programs run through the built binary from another working directory", if ctx.thorough() { "every health assignment (729)" } else { "at most one unhealthy node (25 assignments)" }, if ctx.thorough() { ", length 3 on 3 libraries with at most one unhealthy node, otherwise 2" } else { ", length 2 on 3 libraries" }),
+            rule: format!("every directed graph (self-loops allowed) on 1 and 2 libraries with every assignment of 9 node healths (healthy, missing, faulting body, wrong name in file, syntactically broken, not UTF-8 in the first line, not UTF-8 in a comment after the complete form, path is a directory, healthy behind another library definition in the same source); library files span several lines; every graph on 3 libraries (512) with {}; the library-to-library edges written as plain names and, for all configurations on <= 2 libraries and the all-healthy graphs on 3, as only / prefix / rename / except / mixed / empty-only import sets; for each configuration every history of import attempts on one interpreter (length 3 on <= 2 libraries{}; maximal histories cover their prefixes), with the libraries as files under the program directory (decoy libraries with other values in the working directory) and as registered sources; states = configurations, transitions = import attempts; plus every sequence of <= 3 program files from three directories evaluated on one interpreter (each imports a library that lives next to it, decoys everywhere else), and each of these programs run through the built binary from another working directory; file-shape ladder: a healthy library file with a 2/3/4-byte character starting at every byte offset 1..700 (in a comment / inside a string of the body); library names whose file paths coincide ((a b) vs (a/b), (foo 1) vs (foo |1|)) stay different libraries", if ctx.thorough() { "every health assignment (729)" } else { "at most one unhealthy node (25 assignments)" }, if ctx.thorough() { ", length 3 on 3 libraries with at most one unhealthy node, otherwise 2" } else { ", length 2 on 3 libraries" }),
             bounds: json!({"configurations": total, "worker_deaths": res.deaths.len()}),
-            assumptions: vec!["reference loader: cyclic-import error iff a cycle is reachable through readable libraries, the underlying error kind iff an unhealthy library is reachable, either when both, success otherwise; shared dependencies are not cycles; file-shape ladder: a healthy library file with a 2/3/4-byte character starting at every byte offset 1..700 (in a comment / inside a string of the body); library names whose file paths coincide ((a b) vs (a/b), (foo 1) vs (foo |1|)) stay different libraries".into(), "hook H2 (verif_in_progress) gives the in-progress set".into()],
+            assumptions: vec!["reference loader: cyclic-import error iff a cycle is reachable through readable libraries, the underlying error kind iff an unhealthy library is reachable, either when both, success otherwise; shared dependencies are not cycles".into(), "hook H2 (verif_in_progress) gives the in-progress set".into()],
             wall_s: ctx.elapsed(),
             extra: json!({}),
         },
